@@ -101,21 +101,34 @@ ReadVal(id, v, sst) ==
     [] id = 7 -> <<"s", sst[v.i + 1]>>              \* &self.strings[isst]
     [] OTHER -> Def
 
-\* one iteration of next_cell's loop; st = [row, out, stop]
-CellStep(st, tk, sst) ==
+\* COARSE-KIND typing (fixture-driven traces: real-world parts tokenised by
+\* harness/src/fixtures.rs): the value a record id yields, by kind only -- n (Int / Float /
+\* DateTime: the style is resolved elsewhere, C10), s, b, e
+KindVal(id, v, sst) ==
+  CASE id \in {2, 5, 9} -> <<"n">>
+    [] id = 3 \/ (FmlaErrorRead /\ id = 11) -> <<"e">>
+    [] id \in {4, 10} -> <<"b">>
+    [] id \in {6, 7, 8} -> <<"s">>
+    [] OTHER -> Def
+
+\* one iteration of next_cell's loop, parameterised by the value decoding; st = [row, out, stop]
+CellStepWith(st, tk, sst, Val(_, _, _)) ==
   LET id == TokId(tk) IN
   IF st.stop THEN st
   ELSE IF id = BrtRowHdr
        THEN IF tk.r > 1048576 THEN [st EXCEPT !.stop = TRUE]     \* "invalid row": Ok(None)
             ELSE [st EXCEPT !.row = tk.r]
   ELSE IF id = BrtEndSheetData THEN [st EXCEPT !.stop = TRUE]
-  ELSE IF tk.t = "cell" /\ ReadVal(id, tk.v, sst) # Def
-       THEN [st EXCEPT !.out = Append(@, <<st.row, tk.c, ReadVal(id, tk.v, sst)>>)]
+  ELSE IF tk.t = "cell" /\ Val(id, tk.v, sst) # Def
+       THEN [st EXCEPT !.out = Append(@, <<st.row, tk.c, Val(id, tk.v, sst)>>)]
   ELSE st                                                           \* `_ => continue`
+CellStep(st, tk, sst) == CellStepWith(st, tk, sst, ReadVal)
+CellStepK(st, tk) == CellStepWith(st, tk, <<>>, KindVal)
 
 ReadInit == [row |-> 0, out |-> <<>>, stop |-> FALSE]
 ReadCells(toks, sst) == FoldLeft(LAMBDA a, tk : CellStep(a, tk, sst), ReadInit, toks).out
 AsIs(toks, sst) == RangeOfCells(ReadCells(toks, sst))
+AsIsK(toks) == RangeOfCells(FoldLeft(LAMBDA a, tk : CellStepK(a, tk), ReadInit, toks).out)
 
 --------------------------------------------------------------------------
 (* preamble: record ids between the start of the part and the cell table, and
